@@ -297,7 +297,7 @@ def gen_unroll(rng):
 
 
 def generate(rng, tier):
-    reps = 1 if tier == "quick" else 4
+    reps = 1 if tier == "quick" else 3
     out = []
     for _ in range(reps):
         for k in (2, 3, 4, 5):
@@ -308,16 +308,16 @@ def generate(rng, tier):
                 for nl in sorted({k - 1, k, k + 1, 2 * k + 1}):
                     if tier != "quick" or rng.random() < (0.35 if nl <= k else 0.75):
                         out.append(gen_fanout_struct(rng, t, k, nl))
-    n = 28 if tier == "quick" else 250
+    n = 28 if tier == "quick" else 150
     out += [gen_random(rng, "limit_fanin") for _ in range(n)] + [gen_random(rng, "limit_fanout") for _ in range(n)]
-    out += [gen_cyclic(rng, fn) for fn in ("limit_fanin", "limit_fanout") for _ in range(10 if tier == "quick" else 60)]
-    m = 6 if tier == "quick" else 50
+    out += [gen_cyclic(rng, fn) for fn in ("limit_fanin", "limit_fanout") for _ in range(10 if tier == "quick" else 40)]
+    m = 6 if tier == "quick" else 30
     for fn in ("limit_fanin", "limit_fanout"):
         out += [gen_with_bb(rng, fn) for _ in range(m)] + [gen_twice(rng, fn) for _ in range(m)] + [gen_kinds(rng, fn) for _ in range(m // 2)]
-    out += [gen_regs_args(rng) for _ in range(15 if tier == "quick" else 120)]
+    out += [gen_regs_args(rng) for _ in range(15 if tier == "quick" else 80)]
     out += [gen_reject(rng, rng.choice(["limit_fanin", "limit_fanout"])) for _ in range(4 if tier == "quick" else 12)]
-    out += [gen_regs(rng) for _ in range(45 if tier == "quick" else 300)]
-    out += [gen_unroll(rng) for _ in range(20 if tier == "quick" else 120)]
+    out += [gen_regs(rng) for _ in range(45 if tier == "quick" else 200)]
+    out += [gen_unroll(rng) for _ in range(20 if tier == "quick" else 80)]
     rng.shuffle(out)      # mix the kinds so that the Coq shards cost about the same
     return out
 
